@@ -11,7 +11,7 @@ GOROOT_DIR="$($GO env GOROOT)"
 mkdir -p "$SCR/bin" "$SCR/rt" "$SCR/inst" || exit 2
 ( cd "$VERIF/tools" && $GO build -o "$SCR/bin/rtoverlay" ./rtoverlay && $GO build -o "$SCR/bin/instrument" ./instrument && $GO build -o "$SCR/bin/driver" ./driver ) || { echo "build.sh: tool build failed" >&2; exit 2; }
 "$SCR/bin/rtoverlay" -goroot "$GOROOT_DIR" -out "$SCR/rt" > "$SCR/rt.json" || exit 2
-"$SCR/bin/instrument" -repo "$REPO" -out "$SCR" ${VERIF_DENSE:+-dense "$VERIF_DENSE"} . region hrpc > "$SCR/inst.json" 2> "$SCR/inst.log" || { cat "$SCR/inst.log" >&2; exit 2; }
+"$SCR/bin/instrument" -repo "$REPO" -out "$SCR" ${VERIF_DENSE:+-dense "$VERIF_DENSE"} ${VERIF_VDENSE:+-vdense "$VERIF_VDENSE"} . region hrpc > "$SCR/inst.json" 2> "$SCR/inst.log" || { cat "$SCR/inst.log" >&2; exit 2; }
 # gosim module copy with replace => $REPO
 rm -rf "$SCR/gosim" && cp -r "$VERIF/gosim" "$SCR/gosim" || exit 2
 sed -i "s#=> /repo#=> $REPO#" "$SCR/gosim/go.mod"
